@@ -10,7 +10,7 @@ rest=s[m.end():]
 n=re.search(r'^(### |## |-{20,})', rest, re.M)
 end=m.end()+n.start()
 head=s[:end].rstrip('\n')
-if para[:60] in s: sys.exit('already there')
+if para[:200] in s: sys.exit('already there')
 s=head+'\n\n'+para+'\n\n'+s[end:]
 open(p,'w').write(s)
 print('inserted into',ID)
